@@ -95,13 +95,7 @@ var errInjected = errors.New("injected transport error")
 func run(t *testing.T, sc *Scenario, wd *vc.Watchdog) (res runResult) {
 	res.Wants = map[string]string{}
 	l := simkit.NewLog()
-	defer func() {
-		if p := recover(); p != nil {
-			res.BubbleErr = fmt.Sprint(p)
-			res.Evs = l.Events()
-		}
-	}()
-	synctest.Test(t, func(t *testing.T) {
+	res.BubbleErr = simkit.Bubble(t, func(t *testing.T) {
 		ep := simkit.NewEndpoint(l, simkit.EndpointCfg{Who: "E", Server: sc.Server, Paired: sc.Paired, Auto: sc.Auto,
 			AllowWait: sc.AllowWait, LocalID: "LOCAL-SHIP-ID", StoredRemoteID: sc.StoredID, DeadAt: sc.DeadAt})
 		deadReported := false
@@ -216,6 +210,9 @@ func run(t *testing.T, sc *Scenario, wd *vc.Watchdog) (res runResult) {
 		time.Sleep(250 * 365 * 24 * time.Hour)
 		synctest.Wait()
 	})
+	if res.BubbleErr == simkit.RaceOrFailNow {
+		res.BubbleErr = "" // the race report is in the GORACE log; the scenario itself is evaluated as usual
+	}
 	res.Evs = l.Events()
 	return res
 }
